@@ -16,7 +16,8 @@
 (*   CwndMax        GetCongestionWindow() <= max window (20000 datagrams)   *)
 (*   PacingFloor    bandwidthForPacer() >= 64 KB/s                          *)
 (*   Bookkeeping    slots of the per-packet queue <= 2 x (packet numbers    *)
-(*                  from the oldest packet in flight to the newest sent)+16 *)
+(*                  from the oldest packet in flight - or largest acked - 2 *)
+(*                  if older - to the newest sent) + 16                     *)
 (*   QSlots         (queue replay) slots used = last - first + 1 of the     *)
 (*                  present entries: never more than the span it indexes    *)
 (*   Throughput     loss-free fixed-capacity run: bytes delivered after the *)
@@ -30,7 +31,8 @@
 (* by the harness, delivered volume accumulated as (KB, remainder).         *)
 EXTENDS Mon
 
-RealCfg == [minPkts |-> 4, maxPkts |-> 20000, minBps |-> 65536, thresh |-> 3]
+RealCfg == [minPkts |-> 4, maxPkts |-> 20000, minBps |-> 65536, thresh |-> 3,
+            slotMul |-> 2, slotAdd |-> 16]      \* "proportional": slots <= slotMul x span + slotAdd
 
 DriftClauses == {"DRIFT_EnvTime", "DRIFT_EnvPn", "DRIFT_EnvInflight", "DRIFT_EnvAck", "DRIFT_EnvPrior",
                  "DRIFT_EnvThreshold", "DRIFT_EnvMDS", "DRIFT_EnvLossfree", "DRIFT_EnvSize",
@@ -60,11 +62,15 @@ Pns(s) == {s[i][1] : i \in 1..Len(s)}
 
 \* ---------- outputs read after a call: cwnd, bw, slots ---------------------------
 OutClauses(m, e, bad) ==
-  LET span == IF m.out = <<>> THEN 0 ELSE m.lastPn - m.out[1][1] + 1 IN
+  \* the window of packet numbers the sender still has to know about: from the older of (oldest packet in
+  \* flight, largest acknowledged - 2: what packet-threshold loss detection may still refer to) to the newest sent
+  LET keep == IF m.largest < 0 THEN m.lastPn + 1 ELSE Max2(0, m.largest - (m.cfg.thresh - 1))
+      base == IF m.out = <<>> THEN keep ELSE Min2(m.out[1][1], keep)
+      span == m.lastPn - base + 1 IN
   << <<"CwndMin",     ~bad /\ e.cwnd < m.cfg.minPkts * m.mds>>,
      <<"CwndMax",     ~bad /\ e.cwnd > m.cfg.maxPkts * m.mds>>,
      <<"PacingFloor", ~bad /\ e.bw < m.cfg.minBps>>,
-     <<"Bookkeeping", ~bad /\ e.slots > 2 * span + 16>> >>
+     <<"Bookkeeping", ~bad /\ e.slots > m.cfg.slotMul * span + m.cfg.slotAdd>> >>
 
 \* ---------- OnPacketSent(t, infl, pn, bytes, retrans) ---------------------------
 SentStep(m, e, ln) ==
